@@ -27,7 +27,9 @@ for d in sorted(glob.glob('/verif/seeded/*/')):
         r = subprocess.run(['/verif/check', p], capture_output=True, text=True, env=env, cwd='/verif')
         lines = [l for l in r.stdout.split('\n') if l.startswith('VIOLATION') or l.startswith('FAILED OBLIGATION') or l.startswith('UNDECIDED')]
         res[p] = {'rc': r.returncode, 'lines': [l[:300] for l in lines[:6]]}
-        print(name, p, 'rc=%d' % r.returncode, (lines[0][:160] if lines else ''))
+        if env.get('VERIF_ENGINES') == 'V':
+            res[p]['note'] = 'Verus units of the property only (Kani units skipped for this run)'
+        print(name, p, 'rc=%d' % r.returncode, (lines[0][:160] if lines else ''), flush=True)
     meta['check_results'] = res
     meta['detected'] = any(v['rc'] == 1 for v in res.values())
     json.dump(meta, open(d + 'meta.json', 'w'), indent=1)
